@@ -39,6 +39,9 @@ func WorkerMain(hs map[string]Harness) {
 	nomin := flag.Bool("nominimise", false, "write unminimised replay files")
 	hashlog := flag.String("hashlog", "", "file for one line per run: run, trace hash, steps (determinism self-test)")
 	flag.Parse()
+	if v := os.Getenv("VERIF_STRATEGY"); v != "" { // strategy comparison only (tools/strategy_eval.py)
+		fmt.Sscan(v, &ForceStrategy)
+	}
 	h := hs[*prop]
 	if h == nil {
 		fmt.Fprintf(os.Stderr, "worker: unknown property %q\n", *prop)
